@@ -389,7 +389,8 @@ def judge_declarative(case, ctx, prefix):
         els.append({'type': 'ac_voltage_source', 'name': 'Vs', 'V': V, 'w': w, 'phi': phi, 'direction': 'up'})
         comps.append({'ctor': 'ac_voltage_source', 'id': 'Vs', 'nodes': ['n0', 'n1'], 'args': {'V': V, 'w': w, 'phi': phi}})
     node = 1
-    passive = ['resistor', 'resistor', 'conductance'] + (['capacitor', 'inductance', 'impedance'] if kind not in ('dc', 'real') else [])
+    passive = ['resistor', 'resistor', 'conductance', 'lamp'] + (['capacitor', 'inductance', 'impedance'] if kind not in ('dc', 'real') else [])
+    dots = {}
     for k in range(n):
         t = rng.choice(passive) if k else 'resistor'
         nm = f'{t[0].upper()}{k}'
@@ -404,17 +405,23 @@ def judge_declarative(case, ctx, prefix):
             e['C'] = v() * 1e-7; args = {'C': e['C']}
         elif t == 'inductance':
             e['L'] = v() * 1e-4; args = {'L': e['L']}
+        elif t == 'lamp':
+            e['V_ref'] = v(); e['P_ref'] = v(); args = {'V_ref': e['V_ref'], 'P': e['P_ref']}
         else:
             z = complex(v(), rng.choice([1, -1]) * v()); e['Z'] = z; args = {'Z': [z.real, z.imag]}
         els.append(e)
         comps.append({'ctor': t, 'id': nm, 'nodes': [a, b], 'args': args})
+        if not last and rng.random() < 0.5:
+            els.append({'type': 'node', 'name': f'K{k}'})          # a named dot where the element ends
+            dots[f'K{k}'] = b
         node += 1
     els.append({'type': 'line', 'direction': 'left', 'length': n - 1} if n > 1 else {'type': 'line', 'direction': 'left'})
     els.append({'type': 'ground'})
     names = [c['id'] for c in comps]
     sol = {'type': kind, 'voltages': [{'name': x, 'reverse': rng.random() < 0.5} for x in rng.sample(names, min(3, len(names)))],
            'currents': [{'name': x, 'reverse': rng.random() < 0.5} for x in rng.sample(names, min(2, len(names)))],
-           'powers': [{'name': x} for x in rng.sample(names, 1)]}
+           'powers': [{'name': x} for x in rng.sample(names, 1)],
+           'potentials': [{'name': x} for x in sorted(dots)]}
     p = 3
     if kind in ('dc', 'real', 'complex'):
         p = rng.randint(2, 5)
@@ -426,6 +433,9 @@ def judge_declarative(case, ctx, prefix):
         sol['w'] = w
         sol['precision'] = p = rng.randint(3, 5)
     desc = {'unit': rng.choice([3, 4]), 'elements': els, 'solution': sol}
+    if rng.random() < 0.4:
+        desc['light_lamps'] = True                      # colours the lamp symbols by their power; the numbers must not notice
+        ctx.count('declarative_with_light_lamps')
     ctx.sample({'declarative': C17_safe(desc)})
     before = repr(desc)
     sch = call(create_schematic, copy.deepcopy(desc))
@@ -473,6 +483,19 @@ def judge_declarative(case, ctx, prefix):
             val = complex(ev.real * ei.real) if mode == 'real' else ev * ei.conjugate() * (0.5 if mode == 'sinus' else 1.0)
             unit, s = 'W', refd['s_phi'] * refd['s_i'] * scale * scale
         judge_label(ctx, prefix, 'declarative-' + kind, q, next(c['ctor'] for c in comps if c['id'] == cid), lab, (-val if rev else val), unit, opt, refd['tol'] * s * 8, wa, rev)
+    plabels = [e for e in sch.elements if isinstance(e, elm.LabelNode)]
+    if len(plabels) != len(sol['potentials']):
+        ctx.violation(f'{prefix}/declarative/potential-label-count/{kind}', f'{len(plabels)} potential labels for {len(sol["potentials"])} requested', {})
+        return
+    for lab, req in zip(plabels, sol['potentials']):
+        if kind == 'single_frequency_time_domain':
+            txt = label_text(lab) or ''
+            as_time_function = 'cos(' in txt or 'sin(' in txt
+            scale = 1.0 if as_time_function else 1 / math.sqrt(2)
+            opt = ({'p': 3, 'mode': 'sinus', 'sin': 'sin(' in txt, 'deg': '°' in txt, 'hertz': '2π' in txt, 'scale': 1.0} if as_time_function
+                   else {'p': p, 'mode': 'complex', 'polar': sol.get('polar', False), 'deg': sol.get('deg', False), 'scale': scale})
+        judge_label(ctx, prefix, 'declarative-' + kind, 'potential', 'node', lab, rep['phi'][dots[req['name']]] * scale, 'V', opt, refd['tol'] * refd['s_phi'] * scale * 8, wa, False)
+        ctx.count('declarative_potential_labels')
     ctx.count('declarative_schematics')
 
 
